@@ -13,6 +13,13 @@ AMPS = ["1", "2", "4", "1/2", "8", "1/4", "0", "-2"]
 MAXA = ["4", "100", "1", "16"]
 
 
+def sig(x):
+    """signals as the protocol shows them: ints as they are, the MAPK preset's dicts by the tier they carry"""
+    if isinstance(x, dict):
+        return x.get("tier", "d")
+    return x
+
+
 class C19(Prop):
     id = "C19"
     title = "Cascade gates fail closed and halted pipelines run nothing further"
@@ -49,6 +56,19 @@ class C19(Prop):
             k = rng.choice([1, 2, 2, 3, 3, 4, 5, 6])
             stages = [self._rand_stage(rng) for _ in range(k)]
             case = self._case(rng.random() < 0.5, rng.choice(MAXA), stages, rng.choice([0, 1, 2, 7]), "random")
+            if it % 17 == 5:
+                lines = [f"mapk {show_bool(rng.random() < 0.5)} {rng.choice(['100', '1000', '4', '2000'])} "
+                         f"{rng.choice(AMPS + ['10'])} {rng.choice(AMPS + ['10'])} {rng.choice(AMPS + ['10'])}"]
+                for _ in range(rng.randint(1, 3)):
+                    lines.append("run 0")          # 0 = a raw (non-dict) input; tiers are rendered 1, 2, 3
+                    if rng.random() < 0.4:
+                        lines.append(rng.choice(["stats", "remove MAPKK", "remove MAPKKK",
+                                                 # stub stages inserted into the preset must not depend on the (dict) signal
+                                                 f"insert {rng.randint(0, 3)} {rng.choice(['none', 'pass', 'reject', 'raise', 'raise0'])} "
+                                                 f"{rng.choice(['raise', 'raise0'])} none {rng.choice('01')} 2 x"]))
+                lines.append("stats")
+                yield {"lines": lines, "note": "MAPK preset"}
+                continue
             if it % 3 == 0:
                 # history on the same cascade object: more runs (equal and different signals), stages removed and
                 # re-inserted under the same or another stage's name, then run again
@@ -70,6 +90,7 @@ class C19(Prop):
                         lines.append(f"insert {idx} {cp} {pr} {eh} {show_bool(req)} {amp} {nm}")
                         names.insert(idx, nm)
                 lines.append(f"run {rng.choice([0, 1, 1, 2, 7])}")
+                lines.append("stats")
                 case["note"] = "random history on one cascade"
             yield case
 
@@ -93,8 +114,11 @@ class C19(Prop):
                         hist.append({"lines": [f"cfg {show_bool(halt)} 4", f"stage {g1} ok none 1 1 a",
                                                f"stage {g2} ok none 1 1 a", f"run {x}", f"run {x}"],
                                      "note": "exhaustive: two stages sharing a name"})
+        mapk = [{"lines": [f"mapk {h} {mx} {a} {a} {a}", "run 0", "run 0", "stats"], "note": "MAPK preset"}
+                for h in "01" for mx in ("100", "1000", "4") for a in ("10", "1", "0", "1/2")]
         return [{"name": f"all pipelines of <= {depth} stages over the behaviour alphabet x both halt settings",
                  "cases": cases},
+                {"name": "the shipped MAPK preset x halt x max amplification x tier factors", "cases": mapk},
                 {"name": "same-object histories: gate replaced under the same name between runs; stages sharing a name",
                  "cases": hist}]
 
@@ -126,15 +150,15 @@ class C19(Prop):
 
             def cpf(x):
                 if cp in ("raise", "raise0"):
-                    log.append(f"cp{pos()}:{x}:x")
+                    log.append(f"cp{pos()}:{sig(x)}:x")
                     raise fault(cp, "cp")
                 r = True if cp == "pass" else False if cp == "reject" else \
                     (isinstance(x, int) and x % 2 == 1) if cp == "odd" else (isinstance(x, int) and x < 50)
-                log.append(f"cp{pos()}:{x}:{'t' if r else 'f'}")
+                log.append(f"cp{pos()}:{sig(x)}:{'t' if r else 'f'}")
                 return r
 
             def pf(x):
-                log.append(f"p{pos()}:{x}")
+                log.append(f"p{pos()}:{sig(x)}")
                 if pr != "ok":
                     raise fault(pr, "p")
                 return x * 10 + i0 + 1
@@ -162,6 +186,43 @@ class C19(Prop):
                     cur.clear()
                     made[0] = 0
                     obs.append("ok")
+                elif t[0] == "mapk" and len(t) == 6:
+                    casc = m.MAPKCascade(tier1_amplification=float(Fraction(t[3])), tier2_amplification=float(Fraction(t[4])),
+                                         tier3_amplification=float(Fraction(t[5])), halt_on_failure=t[1] == "1",
+                                         max_amplification=float(Fraction(t[2])), silent=True)
+                    log.clear()
+                    cur.clear()
+                    made[0] = 3
+                    for k, st_ in enumerate(casc._stages):
+                        d = {"cp": "none" if st_.checkpoint is None else f"mapk{k + 1}", "pr": f"mapk{k + 1}", "eh": "none",
+                             "req": True, "amp": st_.amplification, "id": k, "name": st_.name}
+                        cur.append(d)
+
+                        def wrapp(f, d=d):
+                            def g(x):
+                                log.append(f"p{next(i for i, y in enumerate(cur) if y is d)}:{sig(x)}")
+                                return f(x)
+                            return g
+
+                        def wrapc(f, d=d):
+                            def g(x):
+                                k = next(i for i, y in enumerate(cur) if y is d)
+                                try:
+                                    r = f(x)
+                                except Exception:
+                                    log.append(f"cp{k}:{sig(x)}:x")
+                                    raise
+                                log.append(f"cp{k}:{sig(x)}:{'t' if r else 'f'}")
+                                return r
+                            return g
+                        st_.processor = wrapp(st_.processor)
+                        if st_.checkpoint is not None:
+                            st_.checkpoint = wrapc(st_.checkpoint)
+                    obs.append("ok")
+                elif t[0] == "stats" and len(t) == 1:
+                    ensure()
+                    g = casc.get_statistics()
+                    obs.append(f"{g['stages_count']} {g['runs_count']} {g['successful_runs']} {g['failed_runs']}")
                 elif t[0] == "stage" and len(t) in (6, 7):
                     ensure()
                     name = t[6] if len(t) == 7 else f"s{made[0]}"
@@ -190,7 +251,7 @@ class C19(Prop):
                     st = {"completed": "c", "failed": "f", "skipped": "s", "blocked": "b"}
                     res = ",".join(f"{j}{st.get(s.status.value, '?')}:{show_rat(s.amplification_factor)}"
                                    for j, s in enumerate(r.stage_results))
-                    fin = "none" if r.final_output is None else f"some:{r.final_output}"
+                    fin = "none" if r.final_output is None else f"some:{sig(r.final_output)}"
                     blk = "none" if r.blocked_at is None else str(r.blocked_at)
                     obs.append(" ".join([show_bool(r.success), fin, str(r.stages_completed), str(r.stages_total),
                                          show_rat(r.total_amplification), blk, "[" + res + "]",
@@ -209,6 +270,11 @@ class C19(Prop):
         made = 0
         for idx, (line, o) in enumerate(zip(case["lines"], obs)):
             t = line.split()
+            if t[0] == "mapk" and len(t) == 6:
+                halt, maxa, made = t[1] == "1", Fraction(t[2]), 3
+                beh = [("none", "mapk1", "none", True, Fraction(t[3]), 0, "MAPKKK"),
+                       ("mapk2", "mapk2", "none", True, Fraction(t[4]), 1, "MAPKK"),
+                       ("mapk3", "mapk3", "none", True, Fraction(t[5]), 2, "MAPK")]
             if t[0] == "cfg":
                 halt, maxa, beh, made = t[1] == "1", Fraction(t[2]), [], 0
             elif t[0] == "stage" and len(t) in (6, 7):
@@ -235,8 +301,11 @@ class C19(Prop):
                     if cp in ("raise", "raise0"):
                         return None
                     v = int(sig) if sig.lstrip("-").isdigit() else None
+                    if cp.startswith("mapk") and v == 0:
+                        return None             # raw input: x.get raises
                     return {"pass": True, "reject": False, "odd": v is not None and v % 2 == 1,
-                            "lt50": v is not None and v < 50}[cp]
+                            "lt50": v is not None and v < 50, "mapk2": v is not None and v >= 1,
+                            "mapk3": v == 2}[cp]
                 # 1. processor only directly after a checkpoint call of THIS stage, on the same signal, that returned true
                 for j, ev in enumerate(log):
                     if ev.startswith("p"):
@@ -264,7 +333,11 @@ class C19(Prop):
                 if success:
                     x = int(t[1])
                     for b in beh:
-                        x = (x * 10 + b[5] + 1) if b[1] == "ok" else 7000 + b[5]
+                        if b[1].startswith("mapk"):
+                            k = int(b[1][4:])
+                            x = 1 if k == 1 else k
+                        else:
+                            x = (x * 10 + b[5] + 1) if b[1] == "ok" else 7000 + b[5]
                     if fin != f"some:{x}":
                         out.append(Violation("final_output_is_composition", f"some:{x}", fin, idx))
                     if any(b[0] in ("reject", "raise", "raise0") for b in beh):
